@@ -158,7 +158,7 @@ PROPERTIES = {
     },
     'C03': {
         'units': [sm.RFCalcKick, sm.RFKickMapLinearCtor, sm.RFKickMapSinCtor, sm.DriftMapCtor, sm.KickMapCtor, sm.UpdateSM, sm.KickMapApply,
-                  sm.CalcCoefficiants, ps.RulerCtor, mainspec.MainConfig, mainspec.MainPhysics],
+                  sm.CalcCoefficiants, ps.RulerCtor, mainspec.MainConfig, mainspec.MainPhysics, mainspec.MainWiring],
         'lemmas': [sm.lemmas_c03, sm.lemmas_weights],
         'level': 'other',
         'claim': 'one-step law: the RF map displaces row x by tan(angle)*(zerobin-x) cells (sinusoidal: the stated sine law), the drift displaces row y by slip*p(y)/delta_q with slip0 = angle = 2*pi/steps, '
@@ -169,7 +169,7 @@ PROPERTIES = {
         'technique': TECH,
     },
     'C04': {
-        'units': [sm.FokkerPlanckCtor, sm.FokkerPlanckApply, ps.Variance, ps.Average, ps.RulerCtor, mainspec.MainPhysics],
+        'units': [sm.FokkerPlanckCtor, sm.FokkerPlanckApply, ps.Variance, ps.Average, ps.RulerCtor, mainspec.MainPhysics, mainspec.MainWiring],
         'lemmas': [sm.lemmas_fp, sm.lemmas_c04, ps.lemmas_ruler],
         'level': 'other',
         'claim': 'per-step moment law of the damping/diffusion operator the constructor builds (all four variants, both stencils): m0=1, mean -> (1-e1)*mean, second moment -> (1-2e1)v + 2e1 - c*e1*delta^2 with 0<=c<=1, '
@@ -197,7 +197,7 @@ PROPERTIES = {
         'technique': TECH,
     },
     'C19': {
-        'units': [dynrf.CalcModulation, dynrf.DynRFLinearCtor, dynrf.DynRFSinCtor, dynrf.DynCalcKick, dynrf.DynApply, dynrf.GetPastModulation,
+        'units': [mainspec.MainWiring, dynrf.CalcModulation, dynrf.DynRFLinearCtor, dynrf.DynRFSinCtor, dynrf.DynCalcKick, dynrf.DynApply, dynrf.GetPastModulation,
                   sm.RFCalcKick, sm.RFKickMapLinearCtor, sm.RFKickMapSinCtor],
         'lemmas': [dynrf.lemmas_c19],
         'level': 'other',
@@ -205,24 +205,24 @@ PROPERTIES = {
                  'so every kick equals the static kick; apply() computes the kick from the front entry, records exactly that entry and consumes it; getPastModulation returns all records and empties the list; '
                  'pure sinusoidal modulation has the configured amplitude and angular step',
         'assumptions': [A_IDEAL, A_LIB, DROPS, 'random draws are unconstrained reals', 'std::queue / std::vector models'],
-        'uncovered': ['that main flushes the records at every output step and once at the end (control skeleton of main)', 'HDF5File::appendRFKicks (library calls)'],
+        'uncovered': ['HDF5File::appendRFKicks (library calls)'],
         'explanation': 'constructor-state and queue contracts of DynamicRFKickMap',
         'technique': TECH,
     },
     'C05': {
-        'units': [mainloop.MainLoop, mainspec.MainConfig, sm.WakePotentialMapUpdate, ef.ElectricFieldScale, sm.RFCalcKick, sm.DriftMapCtor, sm.FokkerPlanckCtor, ef.WakePotential, sm.UpdateSM, sm.KickMapApply],
+        'units': [mainloop.MainLoop, mainspec.MainConfig, mainspec.MainWiring, sm.WakePotentialMapUpdate, ef.ElectricFieldScale, sm.RFCalcKick, sm.DriftMapCtor, sm.FokkerPlanckCtor, ef.WakePotential, sm.UpdateSM, sm.KickMapApply],
         'lemmas': [sm.lemmas_fp, sm.lemmas_c03],
         'level': 'other',
         'claim': 'the ingredients of the stationary (Haissinski) relation are proved on the code: within one step the wake potential is computed from the projection left by the previous step, then wake kick, RF kick, drift, '
                  'damping/diffusion, projection — in this order for every output cadence; the wake kick offsets are scale*IDFT(Z*DFT(profile)) read back per bunch; RF and drift laws; unit-variance diffusion moments; dt and revolution part. '
                  'The derivation from these facts to ln rho + q^2/2 - (1/dtheta) int W = const is in lemmas/C05.md and is not machine-checked',
-        'assumptions': [A_IDEAL, A_LIB, DROPS, 'event contracts of the control skeleton abstract each callee by an uninterpreted function of the locations its verified contract reads'],
+        'assumptions': [A_IDEAL, A_LIB, DROPS, 'event contracts of the control skeleton abstract each callee by an uninterpreted function of the locations its verified contract reads; which grid each map reads and writes and which variables its constructor receives are obligations over main construction sites (main#wiring.*)'],
         'uncovered': ['the equilibrium statement itself'],
         'explanation': 'control skeleton of main + contracts of the force-law units',
         'technique': TECH,
     },
     'C12': {
-        'units': [mainloop.MainLoop, ps.Integrate, ps.Variance, ps.UpdateYProjection, ps.UpdateXProjection, ef.UpdateCSR, sm.KickMapApply, sm.FokkerPlanckApply, sm.IdentityApply, dynrf.DynApply, dynrf.DynCalcKick],
+        'units': [mainloop.MainLoop, mainspec.MainWiring, ps.Integrate, ps.Variance, ps.UpdateYProjection, ps.UpdateXProjection, ef.UpdateCSR, sm.KickMapApply, sm.FokkerPlanckApply, sm.IdentityApply, dynrf.DynApply, dynrf.DynCalcKick],
         'lemmas': [],
         'level': 'other',
         'claim': 'one loop iteration maps the physics state (three grids, x-projection, wake offsets, tracked particles) to the same value whether or not the output block runs: proved on main by a relational invariant over event contracts; '
@@ -244,7 +244,7 @@ PROPERTIES = {
         'technique': TECH,
     },
     'C10': {
-        'units': [mainloop.MainLoop, ps.UpdateXProjection, ps.UpdateYProjection, ps.Integrate, ps.Variance, ef.WakePotential, ef.UpdateCSR, ef.ElectricFieldScale, io.HDF5FileSources, io.HDF5AppendField, io.HDF5AppendTracks, io.ReadPhaseSpace],
+        'units': [mainloop.MainLoop, mainspec.MainWiring, ps.UpdateXProjection, ps.UpdateYProjection, ps.Integrate, ps.Variance, ef.WakePotential, ef.UpdateCSR, ef.ElectricFieldScale, io.HDF5FileSources, io.HDF5AppendField, io.HDF5AppendTracks, io.ReadPhaseSpace, io.MakePSFromHDF5],
         'lemmas': [],
         'level': 'other',
         'claim': 'partial: every record of a multi-row dataset takes row b from row b of its source (dataset extents vs buffer layout; for /CSR/Spectrum proved on the row copy of append(ElectricField*)) and no append reads beyond its source buffer; at every output event and at exit the CSR, wake-potential and particle datasets receive as many records as the time axis; the time value of the final record is simulationstep/steps; the derived quantities appended are the ones '
@@ -255,7 +255,7 @@ PROPERTIES = {
         'technique': TECH,
     },
     'C11': {
-        'units': [io.ReadPhaseSpace],
+        'units': [io.ReadPhaseSpace, io.MakePSFromHDF5, mainspec.MainStartDistribution],
         'native_sweep': {'harness': 'h5start_replay', 'runs': [['all']], 'hdf5': True},
         'lemmas': [],
         'level': 'other',
